@@ -32,11 +32,32 @@ def problem(rng, dmin=1, dmax=4, cap=64):
         dims[int(np.argmax(dims))] -= 1
     cplx = bool(rng.integers(0, 2))
     with probe.oracle():
-        H = gen.hermitian_tt(rng, dims, int(rng.integers(1, 4)), cplx)
+        if d > 1 and rng.random() < 0.2:
+            # uncoupled or very weakly coupled sites: H = sum_i h_i (+ 1e-9 * coupling) - product states stay (nearly) product states
+            H = None
+            for i in range(d):
+                cs = [np.eye(m).reshape(1, m, m, 1) for m in dims]
+                a = gen.randn(rng, (dims[i], dims[i]), cplx)
+                cs[i] = ((a + a.conj().T) / 2).reshape(1, dims[i], dims[i], 1)
+                H = tt.TT(cs) if H is None else H + tt.TT(cs)
+            if rng.random() < 0.5:
+                H = H + 1e-9 * gen.hermitian_tt(rng, dims, 1, cplx)
+        else:
+            H = gen.hermitian_tt(rng, dims, int(rng.integers(1, 4)), cplx)
         H = (1.0 / max(float(np.linalg.norm(mat(dense(H)), 2)), 1e-12)) * H
         if rng.random() < 0.25:
             H = gen.relayout_tt(rng, H)  # operator cores in other memory layouts (Fortran order, strided / offset views)
     return dims, H, cplx
+
+
+def units(rng, H, h):
+    """the same evolution in other units: H -> s H, h -> h / s (energies of 1e-21 J with times of 1e20 / J, or the reverse); only the
+    product h * H enters the statement"""
+    if rng.random() < 0.85:
+        return H, h, 1.0
+    sc = float(10 ** rng.uniform(-22, -13)) if rng.random() < 0.7 else float(10 ** rng.uniform(6, 12))
+    with probe.oracle():
+        return sc * H, h / sc, sc
 
 
 def state(rng, dims, kind, cplx):
@@ -48,7 +69,18 @@ def state(rng, dims, kind, cplx):
     else:
         r = gen.feasible_ranks(dims, [1] * d, [1] + [int(rng.integers(1, 4)) for _ in range(d - 1)] + [1])
     with probe.oracle():
-        t = tt.TT(gen.right_orthonormal_cores(gen.rand_cores(rng, dims, [1] * d, r, cplx)))
+        if kind == 'maximal' and d > 1 and rng.random() < 0.25:
+            # weakly entangled state of maximal ranks: a product state plus a full-rank admixture of relative size 1e-7.5..1e-6.3
+            # (singular values across every bond far above any truncation threshold, far below the leading one)
+            v = np.ones(1, dtype=complex if cplx else float)
+            for m in dims:
+                v = np.kron(v, gen.randn(rng, (m,), cplx))
+            w = gen.randn(rng, v.shape, cplx)
+            v = v / np.linalg.norm(v) + float(10 ** rng.uniform(-7.5, -6.3)) * w / np.linalg.norm(w)
+            t0 = tt.TT(v.reshape(dims + [1] * d))
+            t = tt.TT(gen.right_orthonormal_cores([c.copy() for c in t0.cores])) if list(t0.ranks) == list(r) else tt.TT(gen.right_orthonormal_cores(gen.rand_cores(rng, dims, [1] * d, r, cplx)))
+        else:
+            t = tt.TT(gen.right_orthonormal_cores(gen.rand_cores(rng, dims, [1] * d, r, cplx)))
         if rng.random() < 0.2:
             t = gen.relayout_tt(rng, t)
         if rng.random() < 0.2:  # (the equations are linear: a right-orthonormal state of any norm is admissible where no normalisation is asked for)
@@ -61,11 +93,12 @@ def w_tdvp1(ctx, rng, idx):
     kind = ['maximal', 'rank1', 'intermediate'][int(rng.integers(0, 3))]
     x0 = state(rng, dims, kind, cplx or rng.random() < 0.5)
     h, N = gen.as_float(rng, float(rng.uniform(0.01, 0.3))), gen.as_int(rng, int(rng.integers(1, 4)))
+    H, h, usc = units(rng, H, h)
     nz = 0 if rng.random() < 0.8 else 2
     ctx.describe({'op': 'tdvp1site', 'dims': dims, 'complex': cplx, 'ranks': x0.ranks, 'kind': kind, 'h': h, 'steps': N, 'normalize': nz})
     call('ode.tdvp1site', ode.tdvp1site, H, x0, h, N, prop=P, tags=['scheme=tdvp1site'], normalize=nz)
     if rng.random() < 0.4:  # the same operator / state objects again with another step size and step count, then with the operator rescaled in place
-        call('ode.tdvp1site', ode.tdvp1site, H, x0, float(rng.uniform(0.01, 0.3)), int(rng.integers(1, 4)), prop=P, tags=['scheme=tdvp1site', 'second_call'], normalize=nz)
+        call('ode.tdvp1site', ode.tdvp1site, H, x0, float(rng.uniform(0.01, 0.3)) / usc, int(rng.integers(1, 4)), prop=P, tags=['scheme=tdvp1site', 'second_call'], normalize=nz)
         with probe.oracle():
             H.cores[-1] = H.cores[-1] * float(rng.uniform(0.4, 0.9))
         call('ode.tdvp1site', ode.tdvp1site, H, x0, h, N, prop=P, tags=['scheme=tdvp1site', 'second_call', 'objects_changed_in_place'], normalize=nz)
@@ -78,13 +111,14 @@ def w_tdvp2(ctx, rng, idx):
     kind = ['maximal', 'maximal', 'intermediate'][int(rng.integers(0, 3))]
     x0 = state(rng, dims, kind, cplx or rng.random() < 0.5)
     h, N = float(rng.uniform(0.01, 0.3)), int(rng.integers(1, 4))
+    H, h, usc = units(rng, H, h)
     thr = [0, 1e-12][int(rng.integers(0, 2))]
     mr = [10 ** 4, np.inf, 2][int(rng.integers(0, 3))] if kind != 'maximal' else [10 ** 4, np.inf][int(rng.integers(0, 2))]
     ctx.describe({'op': 'tdvp2site', 'dims': dims, 'complex': cplx, 'ranks': x0.ranks, 'kind': kind, 'h': h, 'steps': N, 'threshold': thr, 'max_rank': str(mr)})
     nz = 0 if rng.random() < 0.8 else 2
     call('ode.tdvp2site', ode.tdvp2site, H, x0, h, N, prop=P, tags=['scheme=tdvp2site'], threshold=thr, max_rank=mr, normalize=nz)
     if rng.random() < 0.4:
-        call('ode.tdvp2site', ode.tdvp2site, H, x0, float(rng.uniform(0.01, 0.3)), int(rng.integers(1, 4)), prop=P, tags=['scheme=tdvp2site', 'second_call'], threshold=thr, max_rank=mr)
+        call('ode.tdvp2site', ode.tdvp2site, H, x0, float(rng.uniform(0.01, 0.3)) / usc, int(rng.integers(1, 4)), prop=P, tags=['scheme=tdvp2site', 'second_call'], threshold=thr, max_rank=mr)
     if idx < 2:
         ctx.sample({'workload': 'tdvp2site', 'dims': dims, 'initial_ranks': x0.ranks, 'h': h, 'steps': N, 'threshold': thr, 'max_rank': str(mr)})
 
@@ -107,10 +141,11 @@ def w_krylov(ctx, rng, idx):
         x0 = gen.rand_tt(rng, dims, [1] * d, gen.max_ranks(dims, [1] * d), True if cplx else bool(rng.integers(0, 2)))
         x0 = (1.0 / x0.norm()) * x0
     h = float(rng.uniform(0.05, 1.0))
+    H, h, usc = units(rng, H, h)
     ctx.describe({'op': 'krylov', 'dims': dims, 'complex': cplx, 'dimension': n, 'h': h})
-    call('ode.krylov', ode.krylov, H, x0, n, h, prop=P, threshold=[0, 1e-14][int(rng.integers(0, 2))], max_rank=10 ** 4, normalize=[0, 0, 2][int(rng.integers(0, 3))])
+    call('ode.krylov', ode.krylov, H, x0, n, h, prop=P, threshold=[0, 1e-14, 1e-12][int(rng.integers(0, 3))], max_rank=10 ** 4, normalize=[0, 0, 2][int(rng.integers(0, 3))])
     if rng.random() < 0.5:  # the same operator / state objects again: another step size, and the objects changed in place by their owner
-        call('ode.krylov', ode.krylov, H, x0, n, float(rng.uniform(0.05, 1.0)), prop=P, threshold=0, max_rank=10 ** 4, tags=['second_call'])
+        call('ode.krylov', ode.krylov, H, x0, n, float(rng.uniform(0.05, 1.0)) / usc, prop=P, threshold=0, max_rank=10 ** 4, tags=['second_call'])
         with probe.oracle():
             if rng.random() < 0.5:
                 x0.conj(overwrite=True) if rng.random() < 0.5 else x0.cores.__setitem__(0, x0.cores[0] * np.exp(1j * rng.uniform(0.3, 3.0)))
